@@ -119,7 +119,7 @@ def build_cases(rep, tier, rng):
                               lb=lb.tolist(), ub=ub.tolist(), script=sc))
             i += 1
     kinds = ["convex", "indef", "singular", "scaled_up", "wiggly", "scaled_down"]
-    for i in range(70 if tier == "quick" else 2500):
+    for i in range(50 if tier == "quick" else 2500):
         kind = kinds[i % len(kinds)]
         n = [2, 3, 5][(i // len(kinds)) % 3]
         prob = trsolve.random_problem(rng, n, kind)
@@ -130,14 +130,14 @@ def build_cases(rep, tier, rng):
         cases.append(dict(mode="genuine", prob=prob, x0=feasible_start(rng, lb, ub), settings=sv, lb=lb.tolist(),
                           ub=ub.tolist(), script=None))
     # monotone (exact) spectral line search with bounds / radius active on ill-conditioned problems
-    for i in range(24 if tier == "quick" else 400):
+    for i in range(60 if tier == "quick" else 800):
         n = [3, 5][i % 2]
-        prob = trsolve.random_problem(rng, n, "convex")
-        x0 = [rng.uniform(-1, 1) for _ in range(n)]
-        lb = onp.array([v - rng.choice([0.0, 0.2, 0.5]) if rng.random() < 0.8 else -onp.inf for v in x0])
-        ub = onp.array([v + rng.choice([0.0, 0.2, 0.5]) if rng.random() < 0.8 else onp.inf for v in x0])
+        prob = trsolve.random_problem(rng, n, ["indef", "scaled_up", "convex", "indef", "scaled_up", "wiggly"][(i // 2) % 6])
+        x0 = [rng.uniform(-3, 3) for _ in range(n)]
+        lb = onp.array([v - rng.choice([0.0, 0.02, 0.2, 0.5]) if rng.random() < 0.6 else -onp.inf for v in x0])
+        ub = onp.array([v + rng.choice([0.0, 0.02, 0.2, 0.5]) if rng.random() < 0.6 else onp.inf for v in x0])
         cases.append(dict(mode="genuine", prob=prob, x0=x0, lb=lb.tolist(), ub=ub.tolist(), script=None,
-                          settings=dict(spg_use_nonmonotone=False, tr_size=rng.choice([0.3, 2.0, 50.0]), max_trust_iters=30)))
+                          settings=dict(spg_use_nonmonotone=False, tr_size=rng.choice([0.05, 0.05, 0.05, 0.3, 2.0, 50.0]), max_trust_iters=30)))
     for i in range(24 if tier == "quick" else 400):
         n = [2, 3, 4][i % 3]
         prob = trsolve.random_problem(rng, n, "convex")
@@ -215,7 +215,7 @@ def main(tier, replay=None):
         "value-oracle replays check only clauses valid for every environment (feasibility, descent on accepted iterates, returns-last, flag => recomputed optimality < tol)",
         "box membership exact (lb <= x <= ub on the float arrays); trust-region membership of project_onto_tr: ||r|| <= Delta (1+1e-9) (brentq xtol)",
         "convex class: strictly convex quadratics, default settings, reference = active-set enumeration; agreement ||x-x*|| <= 1e-6 (1+||x*||)",
-        "runs in which find_generalized_cauchy_point raises RuntimeError are outside the contract (not a return) and are dropped (counted)"]
+        "a RuntimeError of find_generalized_cauchy_point is outside the contract (not a return): such a run has no Return clauses, but every iterate it reported before raising is judged"]
     rng = random.Random(common.seed())
     if replay:
         case = json.load(open(replay))["case"]
@@ -236,13 +236,11 @@ def main(tier, replay=None):
     dropped = 0
     for i, c in enumerate(cases):
         t = run_case(c, i + 1)
-        if t["ev"][-1]["e"] == "Raised":
-            if "No acceptable Cauchy point" in t["ev"][-1]["what"]:
-                dropped += 1
-                continue
+        if t["ev"][-1]["e"] == "Raised" and t["ev"][-1].get("cauchy"):
+            dropped += 1            # counted; the trace is kept: iterates reported before the raise are still judged
         traces.append(t)
         kept.append(c)
-    rep.coverage["dropped_cauchy_runtimeerror"] = dropped
+    rep.coverage["runs_ending_in_cauchy_runtimeerror"] = dropped
     ids = {t["id"]: c for t, c in zip(traces, kept)}
     by_id = {t["id"]: t for t in traces}
     for t in traces:
